@@ -2,19 +2,10 @@
 (* C16: the library's TL-B parsers report, for every leaf of a value encoded  *)
 (* by the TonTlb interpreter, the abstract value the schema gives it, and     *)
 (* consume exactly the encoded bits and references.                           *)
-EXTENDS TraceKit
+EXTENDS TraceKit, TlbCompare
 \* record: type, flat (leaves from the generator: path, k, a), obs (what the library object holds at each leaf, or
 \*         [skip |-> 1] where the library exposes nothing comparable, or [missing |-> 1]), rem [bits, refs] | err
-\* "logical equality" normalisations: an empty dictionary may be reported as none
-Same(a, o) == \/ o = a
-              \/ Has(o, "skip")
-              \/ (Has(a, "dict") /\ a.dict = <<>> /\ Has(o, "none"))
-Failed(r) ==
-    IF Has(r, "err") THEN {"parse_raised_" \o r.type}
-    ELSE UNION {IF Same(r.flat[i].a, r.obs[i]) THEN {}
-                ELSE {"field_wrong_" \o r.type \o "." \o (IF r.flat[i].path = <<>> THEN "root" ELSE r.flat[i].path[Len(r.flat[i].path)])}
-                : i \in 1..Len(r.flat)}
-         \cup Clause("consumed_exact_" \o r.type, r.rem.bits = 0 /\ r.rem.refs = 0)
+Failed(r) == ParseFailed(r)
 TInit == KitInit
 TNext == KitNext(Failed)
 =============================================================================
